@@ -72,6 +72,7 @@ class DistributedRWLockImpl {
   void lock() {
     for (size_t i = 0; i < N; ++i) {
       slots_[i].setWriteBit();
+      DISPENSO_VERIF_POINT(::dispenso::verif::kDrwTryLockBetweenSlots);
     }
     for (size_t i = 0; i < N; ++i) {
       slots_[i].waitForReaderDrain();
@@ -104,6 +105,7 @@ class DistributedRWLockImpl {
         }
         return false;
       }
+      DISPENSO_VERIF_POINT(::dispenso::verif::kDrwTryLockBetweenSlots);
     }
     // All writer bits set and no other writers. Now drain readers.
     for (size_t i = 0; i < N; ++i) {
